@@ -47,10 +47,11 @@ def main(argv=None):
     only = set(a.only.split(",")) if a.only else None
     subs = mod.SUBCHECKS
     meta = {}
+    known = core.load_known(pid)
     for name, sc in subs.items():
         if only and name not in only:
             continue
-        if total.fails and not os.environ.get("VERIF_NO_FAILFAST"):
+        if any(core.match_known(known, f) is None for f in total.fails) and not os.environ.get("VERIF_NO_FAILFAST"):
             meta[name] = dict(units=0, wall_s=0.0, evaluations=0, skipped="an earlier sub-check already found violations")
             total.counters["capped"] = 1
             continue
